@@ -198,7 +198,7 @@ func c17One(rep *Report, f *Fixture, server uint16, c c17Case) {
 		s = t.Snapshot()
 		if len(s.Packets) > 1 {
 			rep.Violate("C17/answered-after-mismatch", fmt.Sprintf("server caps %#x client %#x: a packet was answered after the capability mismatch", server, c.caps), detail(s))
-		} else if !ended && !(t.Kind == "legacy" && s.InEnded) {
+		} else if !ended {
 			rep.Violate("C17/not-ended-after-mismatch", fmt.Sprintf("server caps %#x client %#x: tunnel not ended within %v after the capability mismatch", server, c.caps, W), detail(s))
 		}
 	}
